@@ -154,6 +154,8 @@ func effectsCmd(args []string) error {
 		"Y := join(\"p\", \"q\")\ntask a() {\n}\n\n\n# trailing\n",
 		"task clean() {\n    echo cleaning\n}\ntask a() -> (\"x.o\", \"y.o\") {\n    echo a\n}\n",
 		"task a(\"*.txt\") {\n    echo {{.Z}}\n}\nZ := \"late\"\n",
+		// a dependency that is never there: whatever is asked for, nothing comes into being where it should be
+		"task default(\"never-made.txt\") {\n    echo d\n}\n\ntask a(default, \"sub/never-made.go\") {\n    echo a\n}\n",
 	}
 	badParse := []string{"task a( {\n", "X := \n", "task a() {\n  echo hi\n", "??\n"}
 	badLoad := []string{"task a() {\n}\ntask a() {\n}\n", "X := nope(\"1\")\n", "X := exec(\"exit 3\")\n"}
